@@ -158,7 +158,7 @@ func DefaultInitAllow(path string) bool {
 		"sort", "slices", "net/netip", "net/textproto", "net/url", "html", "path", "path/filepath",
 		"io/fs", "context", "math", "math/bits", "unicode", "net", "mime", "internal/bytealg",
 		"internal/oserror", "internal/poll", "net/http/internal/ascii", "net/http/internal",
-		"golang.org/x/net/http/httpguts", "internal/itoa", "internal/stringslite", "mime/multipart",
+		"golang.org/x/net/http/httpguts", "vendor/golang.org/x/net/http/httpguts", "net/http", "internal/itoa", "internal/stringslite", "mime/multipart",
 		"encoding/base64", "encoding/binary", "internal/byteorder", "unique", "iter", "maps", "cmp":
 		return true
 	}
